@@ -655,6 +655,18 @@ def gen_hs_cases(ctx):
                 refs.append({'lv': lv, 'frac': rng.choice([0.1, 0.25, 0.5])})
             if rng.random() < 0.25:
                 refs.append({'lv': rng.randint(0, lv), 'frac': 0.15})     # re-refine a coarser level later
+        if rng.random() < 0.5:
+            # later refinements of EXISTING coarser levels along a boundary / in a corner (no new level is created
+            # when a finer level exists already): the sets of boundary functions change without a level being added
+            for _ in range(rng.choice([1, 1, 2])):
+                lvc = rng.randint(0, max(0, nref - 1))
+                w = Fr(1, 2 ** (lvc + 1))
+                box = []
+                for d in range(dim):
+                    side = rng.choice(['lo', 'hi', 'all', 'mid'])
+                    box.append({'lo': [0.0, float(w)], 'hi': [float(1 - w), 1.0], 'all': [0.0, 1.0],
+                                'mid': [float(Fr(1, 2) - w), float(Fr(1, 2) + w)]}[side])
+                refs.append({'lv': lvc, 'box': box})
         c = {'dim': dim, 'p': p, 'n0': n0, 'disparity': rng.choice([None, None, 1, 2]), 'truncate': rng.random() < 0.5,
              'bdspecs': bd, 'seed': rng.randrange(10 ** 6), 'refinements': refs}
         if k < nmg and dim <= 2:
@@ -704,38 +716,69 @@ def hs_oracle(res):
     return out
 
 
-def check_sets_on_impl(c, res):
+def check_sets_on_impl(c, res, q=None, who=''):
+    """q: the query results to judge (default: those of the object with the query history);
+    the structure (actfun, deactfun, mesh sizes) is that of the final space."""
     out = []
+    q = res if q is None else q
     orc = hs_oracle(res)
     L = res['numlevels']
+
+    def err(tag, what, v):
+        out.append(('%s-raises%s:%s' % (tag, who, v['error']), '%s raised %s: %s' % (what, v['error'], v['msg'])))
     for lv in range(L):
         size, new, dirs = orc[lv]
-        if sorted(res['dirichlet'][lv]) != dirs:
-            out.append(('dirichlet-dofs', 'dirichlet_dofs(%d) = %s, functions on the Dirichlet boundary are %s' % (lv, res['dirichlet'][lv][:12], dirs[:12])))
+        d = q['dirichlet'][lv]
+        if isinstance(d, dict):
+            err('dirichlet-dofs', 'dirichlet_dofs(%d)' % lv, d)
+        elif sorted(d) != dirs:
+            out.append(('dirichlet-dofs' + who, 'dirichlet_dofs(%d) = %s, functions on the Dirichlet boundary are %s' % (lv, d[:12], dirs[:12])))
     size, new, dirs = orc[L - 1]
-    if sorted(res['dirichlet_default']) != dirs:
-        out.append(('dirichlet-dofs', 'dirichlet_dofs() differs from the functions on the Dirichlet boundary'))
-    if res['non_dirichlet'] != [k for k in range(res['numdofs']) if k not in set(dirs)]:
-        out.append(('non-dirichlet-dofs', 'non_dirichlet_dofs() is not the complement of the Dirichlet dofs'))
+    if isinstance(q['dirichlet_default'], dict):
+        err('dirichlet-dofs', 'dirichlet_dofs()', q['dirichlet_default'])
+    elif sorted(q['dirichlet_default']) != dirs:
+        out.append(('dirichlet-dofs' + who, 'dirichlet_dofs() = %s differs from the functions on the Dirichlet boundary %s' % (
+            sorted(q['dirichlet_default'])[:16], dirs[:16])))
+    if isinstance(q['non_dirichlet'], dict):
+        err('non-dirichlet-dofs', 'non_dirichlet_dofs()', q['non_dirichlet'])
+    elif q['non_dirichlet'] != [k for k in range(res['numdofs']) if k not in set(dirs)]:
+        out.append(('non-dirichlet-dofs' + who, 'non_dirichlet_dofs() is not the complement of the Dirichlet dofs'))
     for st in STRATS:
-        s = res['smooth'][st]
+        s = q['smooth'][st]
         if isinstance(s, dict):
-            out.append(('smooth-raises:%s:%s' % (st, s['error']), 'indices_to_smooth(%r) raised %s: %s' % (st, s['error'], s['msg'])))
+            out.append(('smooth-raises%s:%s:%s' % (who, st, s['error']), 'indices_to_smooth(%r) raised %s: %s' % (st, s['error'], s['msg'])))
             continue
         if len(s) != L:
-            out.append(('smooth-levels:' + st, 'indices_to_smooth(%r) has %d levels, space has %d' % (st, len(s), L)))
+            out.append(('smooth-levels%s:%s' % (who, st), 'indices_to_smooth(%r) has %d levels, space has %d' % (st, len(s), L)))
             continue
         for lv in range(L):
             size, new, dirs = orc[lv]
             S = s[lv]
             if any(not (0 <= k < size) for k in S) or len(set(S)) != len(S):
-                out.append(('smooth-invalid:' + st, 'level %d smoothing set %s has invalid or repeated indices (level has %d dofs)' % (lv, S[:12], size)))
+                out.append(('smooth-invalid%s:%s' % (who, st), 'level %d smoothing set %s has invalid or repeated indices (level has %d dofs)' % (lv, S[:12], size)))
             elif set(S) & set(dirs):
-                out.append(('smooth-dirichlet:' + st, 'level %d smoothing set contains Dirichlet dofs %s' % (lv, sorted(set(S) & set(dirs))[:8])))
+                out.append(('smooth-dirichlet%s:%s' % (who, st), 'level %d smoothing set of strategy %s contains Dirichlet dofs %s' % (lv, st, sorted(set(S) & set(dirs))[:8])))
             elif not set(new) <= set(S):
-                out.append(('smooth-misses-new:' + st, 'level %d smoothing set misses new dofs %s' % (lv, sorted(set(new) - set(S))[:8])))
+                out.append(('smooth-misses-new%s:%s' % (who, st), 'level %d smoothing set misses new dofs %s' % (lv, sorted(set(new) - set(S))[:8])))
             elif st == 'new' and S != new:
-                out.append(('smooth-new-exact', 'level %d: strategy new returns %s, the new non-Dirichlet dofs are %s' % (lv, S[:12], new[:12])))
+                out.append(('smooth-new-exact' + who, 'level %d: strategy new returns %s, the new non-Dirichlet dofs are %s' % (lv, S[:12], new[:12])))
+    return out
+
+
+def check_history_on_impl(c, res):
+    """The same refinement history on one object that was queried after every refinement and on a fresh
+    object queried only at the end must give the same space and the same answers."""
+    out = []
+    fr = res['fresh']
+    if not fr['same_sets']:
+        out.append(('history:sets', 'index-set queries between refinements changed the refined space itself'))
+    for key in ('dirichlet', 'dirichlet_default', 'non_dirichlet', 'smooth'):
+        if fr[key] != res[key]:
+            detail = ''
+            if key == 'smooth':
+                detail = ' (strategies %s)' % [st for st in STRATS if fr[key][st] != res[key][st]]
+            out.append(('history:' + key, '%s differs between an HSpace that was queried after every refinement and a freshly '
+                        'built one with the same refinements%s' % (key, detail)))
     return out
 
 
@@ -936,6 +979,61 @@ def coq_mg_cases(hs_cases, hs_results, limit_n, max_cases):
 
 
 # ---------------------------------------------------------------------------
+# smoothing sets / Dirichlet dofs against the C04 model (coq/C04/Boundary.v), the functions
+# smoothing_sets_spec (coq/C11/SmoothSets.v) is about
+# ---------------------------------------------------------------------------
+
+SETS_HEADER = '''From Coq Require Import List Arith Bool.
+From Verif.lib Require Import FinSet.
+From Verif.C04 Require Import Model Boundary.
+Import ListNotations.
+Fixpoint meshes_from (m : tpmesh) (L : nat) : list tpmesh :=
+  match L with O => [] | S k => m :: meshes_from (tp_refine m) k end.
+Fixpoint nleqb (a b : list nat) : bool :=
+  match a, b with [], [] => true | x :: a', y :: b' => Nat.eqb x y && nleqb a' b' | _, _ => false end.
+Definition oleqb (a : option (list nat)) (b : list nat) : bool :=
+  match a with Some l => nleqb l b | None => false end.
+(* a case: coarsest axes, disparity, (actfun, deactfun) per level, Dirichlet boundaries, and per virtual level
+   the implementation's indices_to_smooth('new'), indices_to_smooth('cell_supp'), dirichlet_dofs *)
+Inductive scase := SC (axes : list axis) (disp : option nat) (funs : list (list mi * list mi))
+                      (bds : list bdspec) (exp : list (list nat * list nat * list nat)).
+Definition agrees (c : scase) : bool :=
+  let '(SC axes disp funs bds exp) := c in
+  let st := mk_hspace (meshes_from (tpmesh_of axes) (length funs))
+                      (map (fun ad => mk_level [] [] (of_list (fst ad)) (of_list (snd ad))) funs) disp in
+  forallb (fun lve => let '(lv, (n, cs, d)) := lve in
+                      oleqb (smooth_new st bds lv) n && oleqb (smooth_cell_supp st bds lv) cs
+                      && oleqb (dirichlet_dofs st bds lv) d)
+          (combine (seq 0 (length funs)) exp).
+Fixpoint bad (k : nat) (cs : list scase) : list nat :=
+  match cs with [] => [] | c :: cs' => if agrees c then bad (S k) cs' else k :: bad (S k) cs' end.
+'''
+
+
+def coq_sets_case(c, res, perturb=False):
+    axes = clist(['(mk_axis %d %s)' % (p, cnl([p + 1] + [1] * (n - 1) + [p + 1])) for p, n in zip(c['p'], c['n0'])])
+    disp = '(@None nat)' if res['disparity'] is None else '(Some %d%%nat)' % res['disparity']
+    funs = clist(['(%s, %s)' % (clist([cnl(t) for t in a]), clist([cnl(t) for t in d]))
+                  for a, d in zip(res['actfun'], res['deactfun'])])
+    bds = clist(['(%d%%nat, %d%%nat)' % (a, sd) for a, sd in res['bdspecs']]) if res['bdspecs'] else '(@nil bdspec)'
+    exp = []
+    for lv in range(res['numlevels']):
+        d = list(res['dirichlet'][lv])
+        if perturb and lv == 0:
+            d = d + [0]
+        exp.append('(%s, %s, %s)' % tuple(cnl(v) if v else '(@nil nat)' for v in (res['smooth']['new'][lv], res['smooth']['cell_supp'][lv], d)))
+    return '(SC %s %s %s %s %s)' % (axes, disp, funs, bds, clist(exp))
+
+
+def sets_case_ok(res, limit):
+    if res.get('status') != 'Ok' or res['numdofs'] > limit:
+        return False
+    if any(isinstance(d, dict) for d in res['dirichlet']):
+        return False
+    return all(isinstance(res['smooth'][st], list) and len(res['smooth'][st]) == res['numlevels'] for st in ('new', 'cell_supp'))
+
+
+# ---------------------------------------------------------------------------
 # run
 # ---------------------------------------------------------------------------
 
@@ -1029,11 +1127,13 @@ def run(ctx):
         stats['spaces'] += 1
         stats['levels'][r['numlevels']] = stats['levels'].get(r['numlevels'], 0) + 1
         ctx.count(('hs', r['actfun'], r['deactfun'], r['bdspecs'], c['truncate'], c['disparity']), nontrivial=r['numlevels'] >= 2)
-        for tag, text in check_sets_on_impl(c, r):
+        for tag, text in (check_sets_on_impl(c, r) + check_sets_on_impl(c, r, r['fresh'], ':fresh') + check_history_on_impl(c, r)):
             nfail += 1
-            ctx.report('impl:' + tag, text, {'case': pub, 'impl': {k: r[k] for k in ('numlevels', 'actfun', 'deactfun', 'dirichlet', 'smooth')},
-                       'how': 'hs.indices_to_smooth(strategy), hs.dirichlet_dofs(lv) on the space built by c11_driver.build_hspace'})
-        if 'mg' in r:
+            ctx.report('impl:' + tag, text, {'case': pub, 'impl': {k: r[k] for k in ('numlevels', 'actfun', 'deactfun', 'dirichlet', 'dirichlet_default', 'smooth', 'fresh')},
+                       'how': 'c11_driver.build_hspace(case, warm=True): after every refinement all of dirichlet_dofs(lv), non_dirichlet_dofs(), '
+                              'indices_to_smooth(strategy) are called on the same HSpace before the next hs.refine({lv: cells}); '
+                              'fresh = the same refinements on a new HSpace queried only at the end'})
+        if 'mg' in r and isinstance(r['non_dirichlet'], list):
             for tag, text in check_mg_on_impl(ctx, c, r, stats):
                 nfail += 1
                 ctx.report('impl:' + tag, text, {'case': pub, 'how': 'solvers.local_mg_step / solve_hmultigrid on the space and matrix built by c11_driver.run_hs'})
@@ -1101,6 +1201,23 @@ def run(ctx):
                    + (': ' + viol[0][1] if viol else ''),
                    {'case': c, 'impl': {k: v for k, v in r.items() if k not in ('A', 'trace')}}, found_input=bool(viol))
     n_tg_coq = len(ok_tg)
+    ok_hs = [(c, r) for c, r in zip(hs_cases, hs_results) if sets_case_ok(r, 250)]
+    texts = [coq_sets_case(c, r) for c, r in ok_hs]
+    canary = coq_sets_case(ok_hs[0][0], ok_hs[0][1], perturb=True) if ok_hs else None
+    bad, okf = eval_case_files(ctx, 'C11_sets', SETS_HEADER, texts + ([canary] if canary else []), 12)
+    if canary and okf:
+        if len(texts) not in bad:
+            ctx.broken.append('self-test: a perturbed smoothing-set case was not flagged by the Coq comparison')
+        bad = [b for b in bad if b != len(texts)]
+    for b in bad[:3]:
+        c, r = ok_hs[b]
+        ndis += 1
+        ctx.broken.append('correspondence C11 smoothing sets / Dirichlet dofs C04-model<->impl differs (space %d)' % b)
+        viol = check_sets_on_impl(c, r) + check_history_on_impl(c, r)
+        ctx.report('tie:smoothing-sets', 'indices_to_smooth(new/cell_supp) or dirichlet_dofs differ from the C04 model (coq/C04/Boundary.v) on the same space'
+                   + (': ' + viol[0][1] if viol else ''),
+                   {'case': c, 'impl': {k: r[k] for k in ('numlevels', 'actfun', 'deactfun', 'dirichlet', 'smooth')}}, found_input=bool(viol))
+    n_sets_coq = len(ok_hs)
     thorough = ctx.tier == 'thorough'
     texts, meta = coq_mg_cases(hs_cases, hs_results, 16, 160 if thorough else 40)
     bad, okf = eval_case_files(ctx, 'C11_mg', MG_HEADER, texts, 14)
@@ -1111,7 +1228,7 @@ def run(ctx):
                    'Coq model of local_mg_step and implementation disagree beyond the rounding bound', meta[b], found_input=True)
     ctx.cov['disagreements_checked'] = ndis
     log('[C11] Coq case files done in %.0fs' % (time.time() - t0))
-    ctx.cov['coq_cases'] = {'gauss_seidel': len(ok_gs), 'iterative_solve': len(ok_it), 'twogrid_loop': n_tg_coq, 'local_mg_step': len(texts)}
+    ctx.cov['coq_cases'] = {'gauss_seidel': len(ok_gs), 'iterative_solve': len(ok_it), 'twogrid_loop': n_tg_coq, 'smoothing_sets_C04_model': n_sets_coq, 'local_mg_step': len(texts)}
     ctx.cov['rule'] = ('Gauss-Seidel: SPD/diagonally dominant/nonsymmetric/zero-diagonal dyadic matrices n<=7 (12) in dense, raw CSR '
                        '(explicit zeros, unsorted columns), CSC, COO (duplicates) x index lists x sweeps x iterations; iterative_solve: '
                        'exactly computable contractions x x0 x active dofs x tol x maxiter; twogrid x u0 kinds; hierarchical spaces '
